@@ -647,3 +647,39 @@ func (c *Ctx) fileOf(pos token.Pos) (*packages.Package, *ast.File) {
 	}
 	return nil, nil
 }
+
+// retResults returns the operands of a Return, reading through the go/ssa
+// defer spill (`*t0 = x; rundefers; t1 = *t0; return t1`): when an operand is
+// a load of a local cell stored earlier in the same block, the stored value is
+// returned instead.
+func retResults(ret *ssa.Return) []ssa.Value {
+	out := make([]ssa.Value, len(ret.Results))
+	for i, v := range ret.Results {
+		out[i] = resolveSpill(v, ret)
+	}
+	return out
+}
+
+func resolveSpill(v ssa.Value, ret *ssa.Return) ssa.Value {
+	ld, ok := v.(*ssa.UnOp)
+	if !ok || ld.Op != token.MUL {
+		return v
+	}
+	al, ok := ld.X.(*ssa.Alloc)
+	if !ok {
+		return v
+	}
+	var last ssa.Value
+	for _, in := range ret.Block().Instrs {
+		if in == ssa.Instruction(ld) {
+			break
+		}
+		if st, ok := in.(*ssa.Store); ok && st.Addr == ssa.Value(al) {
+			last = st.Val
+		}
+	}
+	if last != nil {
+		return last
+	}
+	return v
+}
